@@ -314,7 +314,7 @@ def dictLitIndex (k : String) : List Expr → Nat → Except Err (Option Nat)
     (match c with
      | .str s => if s = k then .ok (some i) else dictLitIndex k rest (i + 1)
      | _ => dictLitIndex k rest (i + 1))
-  | _ :: _, _ => .error (.internal "AttributeError")
+  | _ :: rest, i => dictLitIndex k rest (i + 1)      -- a key that is not a Constant node (-1, (1, 2), …) names no attribute
 
 /-! ### the follower -/
 
